@@ -15,7 +15,6 @@ use crate::base::scan::{
 };
 use crate::base::wire::{Compose, Parse, ParseError};
 use crate::utils::base64;
-use core::fmt::Write as _;
 use core::str::FromStr;
 use core::{fmt, hash, mem, str};
 use octseq::builder::{
@@ -785,7 +784,7 @@ impl<Octs: Octets + ?Sized> fmt::Display for Alpn<Octs> {
                 f.write_str(",")?;
             }
             for ch in v.as_ref() {
-                f.write_char(*ch as char)?;
+                fmt::Display::fmt(&Symbol::from_octet(*ch), f)?;
             }
         }
         Ok(())
